@@ -231,6 +231,7 @@ and compile times for games.
 #![warn(clippy::todo)]
 #![warn(missing_docs)]
 #![allow(clippy::tabs_in_doc_comments)]
+#![allow(unexpected_cfgs)]
 
 pub mod backend;
 pub mod clock;
@@ -255,6 +256,9 @@ mod start_time;
 mod test_helpers;
 pub mod track;
 mod tween;
+#[cfg(kira_verif)]
+#[doc(hidden)]
+pub mod verif_hooks;
 mod value;
 
 pub use backend::DefaultBackend;
